@@ -183,6 +183,11 @@ func cmdCheck(args []string) {
 				usedTrusted[fn.String()+" [assumed clause: "+en.Text+"]"] = true
 			}
 		}
+		for _, rq := range ct.Requires {
+			if rq.Assumed {
+				usedTrusted[fn.String()+" [environment assumption at entry, not an obligation of callers: "+rq.Text+"]"] = true
+			}
+		}
 		rep := e.verifyFunction(fn, ct)
 		for _, ut := range rep.UsedTrusted {
 			usedTrusted[ut] = true
